@@ -507,6 +507,26 @@ pub(crate) async fn basic_expand_assignment_word(
     expander.basic_expand_to_str(word_str.as_ref()).await
 }
 
+/// Expands the value of a scalar assignment statement (`name=value`): like
+/// [`basic_expand_assignment_word`], but without brace expansion, which the shell does not
+/// apply to such values (`x={a,b}` assigns the text `{a,b}`).
+///
+/// # Arguments
+///
+/// * `shell` - The shell in which to perform expansion.
+/// * `params` - The execution parameters to use during expansion.
+/// * `word_str` - The word to expand, as a string.
+pub(crate) async fn basic_expand_scalar_assignment_value(
+    shell: &mut Shell<impl extensions::ShellExtensions>,
+    params: &ExecutionParameters,
+    word_str: impl AsRef<str>,
+) -> Result<String, error::Error> {
+    let mut expander = WordExpander::new(shell, params);
+    expander.parser_options.tilde_expansion_after_colon = true;
+    expander.disable_brace_expansion = true;
+    expander.basic_expand_to_str(word_str.as_ref()).await
+}
+
 /// Assigns a value to a named parameter.
 ///
 /// # Arguments
